@@ -12,6 +12,11 @@ CHECKS = {
    "Trusted: the slice model of Lua 5.1 list functions written from the manual; Go's sort as permutation oracle is not used (the oracle checks the result, not the algorithm).",
    "DESIGN.md section 5 C18"),
 }
+CHECKS["C01"] = ("exploration",
+   "runtime monitoring: generated programs run on the real interpreter; an online reference-interpreter monitor compares the emit trace, results and failure line; metamorphic twins (layout, register padding, literal lifting) compared trace-to-trace",
+   "Held on the generated programs of this run (counts, operator/storage coverage and inconclusive cases in the evidence file); a sampled exploration, not a proof over all programs.",
+   "Trusted: the reference interpreter internal/lref written from the Lua 5.1 manual; error texts are not compared; sign of computed zeros and non-%.14g-stable number->string conversions are outside the compared domain (counted inconclusive).",
+   "DESIGN.md section 5 C01")
 PENDING = {}
 
 def hooks_commits():
